@@ -65,8 +65,12 @@ def renderTvd (p : TVD) (isPoint : Bool) (coords : List Int) : String :=
     if trapped evs then "trap"
     else
       let ts := items evs
-      let act := ts.filterMap (fun t => match t.computeScalar p coords with | .ok (some v) => some (u32OfInt v) | _ => none)
-      joinBar ([s!"{p.countBits} {sp} {ts.length} a{act.length}.{fnv act}"] ++ ts.map (renderTuple p isPoint coords))
+      let act := match activeTuples p coords with
+        | some (.ok l) => let a := l.map (fun (x : TV × Int) => u32OfInt x.2); s!"a{a.length}.{fnv a}"
+        | some .trap => "trap"
+        | some (.err e) => errStr e
+        | none => "fuel"
+      joinBar ([s!"{p.countBits} {sp} {ts.length} {act}"] ++ ts.map (renderTuple p isPoint coords))
 
 def handle (cmd : String) (args : List String) : Option String :=
   match cmd, args with
